@@ -18,15 +18,36 @@ pub fn coord_dir() -> String {
 
 struct Child {
     pid: i32,
+    slot: usize,
     key: u64,
     started: Instant,
     out: String,
 }
 
 /// Run `f` in a forked child; the child writes its RunResult JSON to `out` and exits.
-fn spawn(key: u64, out: String, f: &dyn Fn() -> RunResult) -> Child {
+fn free_slot(children: &[Child]) -> usize {
+    let mut s = 0;
+    while children.iter().any(|c| c.slot == s) {
+        s += 1;
+    }
+    s
+}
+
+fn spawn(slot: usize, key: u64, out: String, f: &dyn Fn() -> RunResult) -> Child {
     let pid = unsafe { libc::fork() };
     if pid == 0 {
+        // Pin the whole simulated world (its actor thread and the dependency's helper threads) to
+        // one core: the helpers spin-wait on each other, and with 16 worlds sharing 16 cores that
+        // spinning multiplies CPU use per run several times over; on one core a spinner's
+        // sched_yield hands the core to the thread it is waiting for.
+        if std::env::var("MEMSIM_NO_PIN").is_err() {
+            unsafe {
+                let ncpu = libc::sysconf(libc::_SC_NPROCESSORS_ONLN).max(1) as usize;
+                let mut set: libc::cpu_set_t = std::mem::zeroed();
+                libc::CPU_SET(slot % ncpu, &mut set);
+                libc::sched_setaffinity(0, std::mem::size_of::<libc::cpu_set_t>(), &set);
+            }
+        }
         // child: fresh scratch root, TMPDIR on tmpfs so that Tantivy's work dirs are too
         let root = crate::runner::scratch_root();
         let _ = std::fs::create_dir_all(format!("{root}/tmp"));
@@ -46,7 +67,7 @@ fn spawn(key: u64, out: String, f: &dyn Fn() -> RunResult) -> Child {
         let _ = std::fs::remove_dir_all(&root);
         unsafe { libc::_exit(0) };
     }
-    Child { pid, key, started: Instant::now(), out }
+    Child { pid, slot, key, started: Instant::now(), out }
 }
 
 fn reap(children: &mut Vec<Child>, block: bool, timeout: Duration) -> Vec<(u64, Option<RunResult>, String)> {
@@ -98,7 +119,9 @@ pub fn eval_many(def: &CheckDef, scns: &[Scenario], timeout: Duration) -> Vec<Op
             let path = format!("{dir}/e{next}.json");
             let run = def.run;
             let id = def.id;
-            children.push(spawn(next as u64, path, &move || run(&scn, id, false)));
+            let explore = std::env::var("MEMSIM_EXPLORE").is_ok();
+            let slot = free_slot(&children);
+            children.push(spawn(slot, next as u64, path, &move || run(&scn, id, explore)));
             next += 1;
         }
         for (k, r, _how) in reap(&mut children, true, timeout) {
@@ -175,7 +198,8 @@ pub fn explore(def: &CheckDef, tier: Tier, base_seed: u64, known: &[String]) -> 
             let gen = def.gen;
             let run = def.run;
             let id = def.id;
-            children.push(spawn(seed, path, &move || {
+            let slot = free_slot(&children);
+            children.push(spawn(slot, seed, path, &move || {
                 let scn = gen(seed, tier);
                 run(&scn, id, true)
             }));
